@@ -117,6 +117,7 @@ class Repo:
             raise AnalysisError(f"source directory {self.src} not found")
         self.modules: dict[str, Module] = {}
         self.files: list[str] = []
+        self.alpha_log: dict = {}
         for dirpath, dirnames, filenames in os.walk(self.src):
             dirnames[:] = [d for d in dirnames if d != "__pycache__"]
             for f in sorted(filenames):
@@ -134,6 +135,12 @@ class Repo:
                         tree = ast.parse(source, filename=path)
                     except SyntaxError as exc:
                         raise AnalysisError(f"cannot parse {path}: {exc}")
+                    if f.endswith(".py"):
+                        from . import alpha
+
+                        lg = alpha.normalise_module(name, tree, source)
+                        if lg:
+                            self.alpha_log[name] = lg
                     self.modules[name] = Module(name, path, tree, source)
                     self.files.append(path)
                 elif f.endswith(".c"):
